@@ -343,7 +343,8 @@ claim(
     "of the buffer untouched; a bad fd completes with -EBADF and neither buffer nor filesystem is touched.",
     "NARROW CLAIM: the ring accounting and the read/write executors with all fault knobs off. Submit-side draining (submit.rs: latency "
     "sampling, page-cache probing), the CompletionQueue iterator, AsyncFd readiness, fsync parity (Fs::sync_file has no verdict under "
-    "Kani, DESIGN.md section 1), O_DIRECT alignment, the probabilistic faults and the crash clause are NOT covered. "
+    "Kani, DESIGN.md section 1), the capacity check (-ENOSPC; Fs::used_bytes: out of memory at 12 GB, instances unshipped), O_DIRECT "
+    "alignment, the probabilistic faults and the crash clause are NOT covered. "
     "Notify::notify_waiters is stubbed to a no-op; turmoil-fs is built against the std::path model of /verif/models/path.",
     ["sim::RingState::{new, schedule, post_immediate_error, cancel, ready_cq_count, promote_ready, pop_ready}",
      "sim::{exec_read, exec_write, sample_prob}", "turmoil_fs::Fs::{new, alloc_fd, write_file, read_file, file_len, check_space}"],
